@@ -161,6 +161,7 @@ type endpoint struct {
 }
 
 type world struct {
+	dlvSteps []int // scheduling-step numbers at which a packet was handed to an endpoint (C09: crash points right behind a delivery)
 	t       *testing.T
 	seed    uint64
 	prop    string
@@ -690,6 +691,9 @@ func (w *world) deliver(ev *netEvent) {
 	if ev == nil {
 		return
 	}
+	if len(w.dlvSteps) < 20000 {
+		w.dlvSteps = append(w.dlvSteps, w.sim.nSteps)
+	}
 	st := &w.net.stats[1-ev.to.side]
 	st.Delivered++
 	ev.to.deliverPkt(ev.data, ev.pkt)
@@ -858,6 +862,8 @@ type readRec struct {
 	err       error
 	msg       *msgRec // attributed write (nil if none)
 	bad       string  // corruption description
+	bufLen    int
+	truncated bool // the result is exactly the first len(buf) bytes of a longer message, returned without ErrShortBuffer (C18)
 }
 
 // simStream is one direction-agnostic handle: the Stream object at one endpoint.
@@ -940,6 +946,7 @@ func (w *world) read(st *simStream, buf []byte, index map[uint32]*msgRec) *readR
 	r.returnSeq = call.returnSeq
 	r.at = w.now()
 	r.n, r.ppi, r.err = n, uint32(ppi), err
+	r.bufLen = len(buf)
 	st.reads = append(st.reads, r)
 	if err == nil {
 		w.attribute(st, r, buf[:n], index)
@@ -976,6 +983,9 @@ func (w *world) attribute(st *simStream, r *readRec, data []byte, index map[uint
 	want := payloadFor(m.id, m.size)
 	if len(data) != len(want) {
 		r.bad = fmt.Sprintf("message %d: length %d, written %d", m.id, len(data), len(want))
+		if len(data) == r.bufLen && len(data) < len(want) && string(data) == string(want[:len(data)]) {
+			r.truncated = true
+		}
 		return
 	}
 	for i := range want {
